@@ -258,18 +258,61 @@ type c37mut struct {
 	detail  string
 	cl      c37claim
 	content bool // true: root/elements/positions changed (oracle: claim must be false); false: only the proof changed
+	from, to uint64 // position operators: the element proven at from is presented at to
 }
 
-func c37key(op string, vc bool) string {
-	k := "plain"
-	if vc {
-		k = "vc"
-	}
-	switch op {
+// c37key maps an ACCEPTED mutation to its finding class. Four narrow classes are recorded as known findings on
+// the pinned tree (see /verif/known-findings.jsonl); each is delimited here from the tree shape so that any
+// other accepted mutation keeps a key of its own and stays a violation:
+//
+//	treedepth-increased-plain-verify          plain tree, TreeDepth raised
+//	treedepth-decreased-plain-verify          plain tree, TreeDepth lowered to d' and every claimed position < 2^d'
+//	treedepth-changed-vc-verify-positions-0   vector commitment, TreeDepth changed, claimed position set exactly {0}
+//	accepts-phantom-sibling-position-plain    plain tree, one element moved from p (< n) to q (>= n) where q differs
+//	                                          from p only in bits l at which p's ancestor is the last node of an
+//	                                          odd-length layer (its sibling is missing; the pair hash of
+//	                                          (missing, X) equals that of (X, missing))
+func (t *c37tree) findingKey(m c37mut) string {
+	k := t.kind()
+	switch m.op {
 	case "treedepth-increased", "treedepth-decreased":
-		return op + "-" + k + "-verify"
+		if t.vc {
+			if _, has0 := m.cl.elems[0]; has0 && len(m.cl.elems) == 1 {
+				return "treedepth-changed-vc-verify-positions-0"
+			}
+			return "accepts-" + m.op + "-vc"
+		}
+		if m.op == "treedepth-decreased" {
+			for p := range m.cl.elems {
+				if m.cl.proof.TreeDepth >= 64 || p >= uint64(1)<<m.cl.proof.TreeDepth {
+					return "accepts-treedepth-decreased-position-out-of-bound-plain"
+				}
+			}
+		}
+		return m.op + "-plain-verify"
+	case "position-beyond-array":
+		if !t.vc && t.isPhantomSibling(m.from, m.to) {
+			return "accepts-phantom-sibling-position-plain"
+		}
 	}
-	return "accepts-" + op + "-" + k
+	return "accepts-" + m.op + "-" + k
+}
+
+// isPhantomSibling: q is p with a non-empty set of bits flipped, each bit l being a level at which the ancestor
+// of leaf p is the last node of a layer of odd length > 1 (layer sizes n, ceil(n/2), ...).
+func (t *c37tree) isPhantomSibling(p, q uint64) bool {
+	n := uint64(len(t.a))
+	if p >= n || q < n {
+		return false
+	}
+	var mask uint64
+	for l, size := uint(0), n; size > 1; l, size = l+1, (size+1)/2 {
+		if size&1 == 1 && p>>l == size-1 {
+			mask |= 1 << l
+		}
+	}
+	d := p ^ q
+	return d != 0 && d&^mask == 0
 }
 
 func (t *c37tree) sortedPos(cl c37claim) []uint64 {
@@ -362,6 +405,9 @@ func (t *c37tree) mutations(r *kit.Rand, honest c37claim, full bool) []c37mut {
 				delete(cl.elems, p)
 				return true
 			})
+			if k := len(out) - 1; k >= 0 && out[k].op == op {
+				out[k].from, out[k].to = p, q
+			}
 		}
 		// an additional, false, (position, element) pair
 		q := r.Uint64n(width + 2)
@@ -558,7 +604,7 @@ func (t *c37tree) checkCase(c *kit.Ctx, r *kit.Rand, idxs []uint64, full bool, c
 			accepted = c37verify(t.vc, cl) == nil
 		}()
 		if accepted {
-			c.Violation(c37key("invalid-hashtype", t.vc), map[string]any{"case": caseID, "array": t.arrayWitness(idxs), "mutated_claim_accepted": cl.describe()})
+			c.Violation("accepts-invalid-hashtype-"+t.kind(), map[string]any{"case": caseID, "array": t.arrayWitness(idxs), "mutated_claim_accepted": cl.describe()})
 		}
 	}
 	for _, m := range t.mutations(r, honest, full) {
@@ -583,8 +629,8 @@ func (t *c37tree) checkCase(c *kit.Ctx, r *kit.Rand, idxs []uint64, full bool, c
 		c.Eval(1)
 		if merr == nil {
 			c.Count("mutations_accepted", 1)
-			c.Count("accepted:"+c37key(m.op, t.vc), 1)
-			c.Violation(c37key(m.op, t.vc), map[string]any{"case": caseID, "hash": t.hf.HashType.String(), "kind": t.kind(),
+			c.Count("accepted:"+t.findingKey(m), 1)
+			c.Violation(t.findingKey(m), map[string]any{"case": caseID, "hash": t.hf.HashType.String(), "kind": t.kind(),
 				"array": t.arrayWitness(idxs), "proved_positions": idxs, "mutation": m.detail,
 				"honest_claim": honest.describe(), "mutated_claim_accepted": m.cl.describe(),
 				"verifier": map[bool]string{true: "merklearray.VerifyVectorCommitment", false: "merklearray.Verify"}[t.vc]})
